@@ -225,6 +225,41 @@ static void do_btcc(const kv& m) {
     }
 }
 
+// ------------------------------------------------------------------------------------ transactions
+static std::string tx_fields(const CTransaction& tx) {
+    std::string s = strprintf("ver=%d lock=%u", tx.nVersion, tx.nLockTime);
+    for (auto& i : tx.vin) {
+        s += strprintf(" in[%s:%u ss=%s seq=%u w=", HexStr(i.prevout.hash).c_str(), i.prevout.n, hexitem(bytes(i.scriptSig.begin(), i.scriptSig.end())).c_str(), i.nSequence);
+        for (auto& w : i.scriptWitness.stack) s += hexitem(w) + ";";
+        s += "]";
+    }
+    for (auto& o : tx.vout) s += strprintf(" out[%lld %s]", (long long)o.nValue, hexitem(bytes(o.scriptPubKey.begin(), o.scriptPubKey.end())).c_str());
+    CDataStream so(SER_DISK, 0);
+    SerializeTransaction(tx, so);
+    s += " reser=" + HexStr(so) + " txid=" + tx.GetHash().GetHex() + " wtxid=" + tx.GetWitnessHash().GetHex();
+    return s;
+}
+static void do_tx(const kv& m) {
+    // a=<--tx argument> [i=<--txin argument> [sel=<n>]] : the calls btcdeb's main makes, with its exception guards
+    std::string id = get(m, "id");
+    Instance inst;
+    std::string arg = unhexstr(get(m, "a"));
+    try {
+        if (!inst.parse_transaction(arg.c_str(), true)) { fprintf(OUT, "R %s fail\n", id.c_str()); return; }
+    } catch (const std::exception& ex) { fprintf(OUT, "R %s exn\n", id.c_str()); return; }
+    std::string am;
+    for (size_t i = 0; i < inst.amounts.size(); i++) am += (i ? "," : "") + std::to_string((long long)inst.amounts[i]);
+    std::string line = strprintf("R %s ok amounts=%s sv=%d %s", id.c_str(), am.c_str(), (int)inst.sigver, tx_fields(*inst.tx).c_str());
+    if (m.count("i")) {
+        std::string iarg = unhexstr(get(m, "i"));
+        try {
+            if (!inst.parse_input_transaction(iarg.c_str(), (int)geti(m, "sel", -1))) line += " selfail";
+            else line += strprintf(" sel=%lld:%lld intxid=%s", (long long)inst.txin_index, (long long)inst.txin_vout_index, inst.txin->GetHash().GetHex().c_str());
+        } catch (const std::exception& ex) { line += " selexn"; }
+    }
+    fprintf(OUT, "%s\n", line.c_str());
+}
+
 // ------------------------------------------------------------------------------------ dispatcher
 static void run_case(const std::string& line) {
     std::istringstream is(line);
@@ -240,6 +275,7 @@ static void run_case(const std::string& line) {
     else if (kind == "snv") do_snv(m);
     else if (kind == "script") do_script(m);
     else if (kind == "btcc") do_btcc(m);
+    else if (kind == "tx") do_tx(m);
     else fprintf(OUT, "R %s unknownkind\n", get(m, "id").c_str());
 }
 
@@ -292,7 +328,8 @@ int main(int argc, char** argv) {
         if (p != std::string::npos) { size_t e = l.find(' ', p); id = l.substr(p + 3, e == std::string::npos ? e : e - p - 3); }
         int sig = WIFSIGNALED(status) ? WTERMSIG(status) : 0;
         int code = WIFEXITED(status) ? WEXITSTATUS(status) : -1;
-        fprintf(stdout, "R %s CRASH sig=%d exit=%d\n", id.c_str(), sig, code);
+        if (sig == 0 && code == 1) fprintf(stdout, "R %s exit1\n", id.c_str());   // the code under test called exit(1)
+        else fprintf(stdout, "R %s CRASH sig=%d exit=%d\n", id.c_str(), sig, code);
         next = last + 1;
     }
     return 0;
